@@ -103,6 +103,16 @@ func (s *scen) settle() {
 	vrt.Fail("post-rotation-flush-never-ran")
 }
 
+// allocBody gives the payload its body the way the memcache server does (Item.Alloc): C memory
+// whenever the value is longer than MCConf.BodyInC (0 in the scenario configuration), so that
+// the store's frees of WRITTEN values are real frees under the engine and natively.
+func allocBody(p *Payload, body []byte) {
+	if !p.CArray.Alloc(len(body)) {
+		panic("alloc failed")
+	}
+	copy(p.Body, body)
+}
+
 func abs32(x int32) int32 {
 	if x < 0 {
 		return -x
@@ -115,7 +125,7 @@ func abs32(x int32) int32 {
 func (s *scen) set(key string, body []byte, flag uint32, rev int32) {
 	ki := NewKeyInfoFromBytes([]byte(key), 0, false)
 	p := &Payload{Meta: Meta{Flag: flag, Ver: rev, TS: 1}}
-	p.Body = append([]byte{}, body...)
+	allocBody(p, body)
 	cmem.DBRL.SetData.AddSizeAndCount(p.CArray.Cap)
 	err := s.st.Set(ki, p)
 	s.settle()
